@@ -605,7 +605,10 @@ pub fn run_exchange(spec: &ExchangeSpec, start: Option<Flow<(), Prepare>>, strea
                     sb.consume_direct_write(take).map_err(|e| format!("consume_direct_write({}): {:?}", take, e))?;
                     req_wire.extend_from_slice(&rest[..take]);
                     rest = &rest[take..];
-                    s.progress(take > 0 || sb.can_proceed());
+                    if rest.is_empty() && !sb.can_proceed() {
+                        return Err(format!("all {} body bytes accounted for by a direct-write report of {} bytes, but the body is not reported finished", spec.body.len(), take));
+                    }
+                    s.progress(true);
                     continue;
                 }
                 let ob = s.body_out(take);
